@@ -22,6 +22,12 @@ Identical(a, b) ==
        THEN "handler-visible values differ between the C and the Rust run"
   ELSE "ok"
 
+\* the last-error string taken after a failed write / end is the message of THAT failure: it equals the Display
+\* of the error the Rust API returns for the same call (witness: the mirrored Rust run).  Failures raised by a
+\* handler carry the handler's own text on the Rust side and are not compared.
+MsgOk(r) == ~("msgs" \in DOMAIN r) \/ r.msgs.c.res # r.msgs.rust.res \/ r.msgs.c.res \notin {"err:mem", "err:ambiguity"}
+            \/ r.msgs.c.m = r.msgs.rust.m
+
 TInit == l = 1 /\ k = 1 /\ m = A!Init /\ nbad = 0
 Report(why) == PrintT(<<"BAD", Rec[l].id, k, "C17: " \o why>>)
 NextRec == l' = l + 1 /\ k' = 1 /\ m' = A!Init
@@ -32,7 +38,8 @@ Consume ==
      ELSE Report(mm.why) /\ nbad' = nbad + 1 /\ NextRec
 Finish ==
   /\ l <= Len(Rec) /\ k = Len(Rec[l].api) + 1
-  /\ LET v == IF Rec[l].compare THEN Identical(Rec[l].rust, Rec[l].c) ELSE "ok" IN
+  /\ LET v0 == IF Rec[l].compare THEN Identical(Rec[l].rust, Rec[l].c) ELSE "ok"
+         v == IF v0 = "ok" /\ Rec[l].compare /\ ~MsgOk(Rec[l]) THEN "the last-error message after a failed call is not the message of that failure" ELSE v0 IN
      IF v = "ok" THEN UNCHANGED nbad ELSE Report(v) /\ nbad' = nbad + 1
   /\ NextRec
 TNext == Consume \/ Finish
